@@ -75,7 +75,7 @@ def tableSwitchRange : Nat := 41
 def writerTableSwitchCount : Nat := 42
 
 def table : List Info := [
-  -- ------------------------------------------------------------------ found open by this audit: 1–8 since repaired, 9 still open
+  -- ------------------------------------------------------------------ found open by this audit: 1–9, all since repaired
   ⟨1, "duke/src/class_reader/labels.rs", 59, "start_pc + length",
     "`start_pc + length` in u16 (LocalVariableTable, LocalVariableTypeTable, localvar/resource type-annotation targets)",
     "was open (no guard); fixed by e3534dd: `start_pc.checked_add(length)` is an error now", .fixed⟩,
@@ -104,7 +104,7 @@ def table : List Info := [
     "same counter, one-slot arguments", "was open (no guard); fixed by cf30e8c: `checked_add`, an error now", .fixed⟩,
   ⟨9, "duke/src/simple_class_writer.rs", 470, "compute_signed_offset(opcode_pos + 1 + 2, target)",
     "`opcode_pos + 1 + 2` in u16 when a far backward `if` sits at opcode_pos >= 65533 (a 65535-byte method grows when `ldc` becomes `ldc_w`)",
-    "`opcode_pos <= 65535` only", .open_⟩,
+    "was open (`opcode_pos <= 65535` only); fixed by 136eeb3: `opcode_pos.checked_add(1 + 2)` is an error now", .fixed⟩,
   ⟨10, "quill/src/enigma_file.rs", 120, "CLASS => parse_class(mappings, iter, line, Some",
     "recursion depth = indentation depth of nested CLASS lines (needs d lines with 0..d-1 tabs: |input| >= d*(d+11)/2, so depth <= sqrt(2|input|))",
     "none; sub-linear in the input, not exhibited (would need tens of MiB)", .bounded⟩,
